@@ -52,7 +52,8 @@ def setup(jobs=16):
 
 def run(what, tier, jobs, seed):
     if what == 'determinism':
-        return determinism(200 if tier == 'quick' else 2000)
+        rc = determinism(100 if tier == 'quick' else 2000)
+        return rc or determinism_campaigns(6 if tier == 'quick' else 40, jobs)
     if what == 'fidelity':
         return anchors()
     if what == 'sensitivity':
@@ -90,7 +91,7 @@ def sensitivity(only=None, tier='quick', jobs=16, index='mutants/index.json', wi
         muts = json.load(f)['mutants']
     missed = 0
     for i, m in enumerate(muts):
-        if only and only not in (m['property'], os.path.basename(m['patch']), m.get('id')):
+        if only and only not in (m['property'], os.path.basename(m['patch']), m.get('id')) and not os.path.basename(m['patch']).startswith(only):
             continue
         d = _scratch_repo(str(i))
         try:
@@ -113,7 +114,14 @@ def sensitivity(only=None, tier='quick', jobs=16, index='mutants/index.json', wi
                     caught.append((pid, cls))
                 elif r.returncode == 2:
                     print('  harness error while checking %s under %s: %s' % (pid, m['patch'], r.stdout[-400:]))
-            if caught:
+            if m.get('expect') == 'equivalent':
+                # a change that preserves the property must stay green: an alarm here would be a false alarm
+                if caught:
+                    missed += 1
+                    print('FALSE-ALARM on property-preserving change %-30s by %s %s' % (os.path.basename(m['patch']), caught[0][0], caught[0][1][:1]))
+                else:
+                    print('green   %-34s (property-preserving: %s)' % (os.path.basename(m['patch']), m.get('why_equivalent', '')[:90]))
+            elif caught:
                 print('caught  %-34s by %s  %s' % (os.path.basename(m['patch']), ','.join(c[0] for c in caught), caught[0][1][0][:110] if caught[0][1] else ''))
             else:
                 missed += 1
@@ -122,3 +130,51 @@ def sensitivity(only=None, tier='quick', jobs=16, index='mutants/index.json', wi
             shutil.rmtree(d, ignore_errors=True)
     print('sensitivity: %d missed' % missed)
     return 0 if missed == 0 else 1
+
+
+def case_digests(pid, n, jobs, seed=1, tier='quick', stride=1):
+    """Digests (event logs + outputs + statuses of every invocation) of the first n cases of a campaign."""
+    from . import engine, runner
+    runner.prepare()
+    camp = engine.load_campaign(pid)
+    cases = []
+    for i, c in enumerate(camp.cases(seed, tier)):
+        if i % stride:
+            continue
+        c.setdefault('id', i)
+        c.setdefault('seed', seed)
+        cases.append(c)
+        if len(cases) >= n:
+            break
+    res, _ = engine.run_cases(pid, cases, jobs)
+    return [(r['id'], r['digest'], len(r.get('violations', [])), bool(r.get('harness_errors'))) for r in res]
+
+
+def determinism_campaigns(n=6, jobs=16):
+    """Every campaign: the same cases give the same digests when run twice here (16 workers), with 3 workers, and in a
+    fresh interpreter under another PYTHONHASHSEED."""
+    import json
+    import subprocess
+    here = os.path.dirname(os.path.dirname(os.path.abspath(__file__)))
+    props = sorted(f[:-3] for f in os.listdir(os.path.join(here, 'simaudit', 'props')) if f.startswith('C') and f.endswith('.py'))
+    bad = 0
+    total = 0
+    for pid in props:
+        stride = 37
+        a = case_digests(pid, n, jobs, stride=stride)
+        b = case_digests(pid, n, 3, stride=stride)
+        env = dict(os.environ, PYTHONHASHSEED='12345', PYTHONPATH=here)
+        r = subprocess.run([sys.executable, '-c', 'import json,sys; from simaudit import selftest; print("DIGESTS" + json.dumps(selftest.case_digests(%r, %d, 5, stride=%d)))' % (pid, n, stride)],
+                           capture_output=True, text=True, env=env, cwd=here)
+        line = [ln for ln in r.stdout.split('\n') if ln.startswith('DIGESTS')]
+        c = [tuple(x) for x in json.loads(line[0][7:])] if line else None
+        total += len(a)
+        if any(x[3] for x in a):
+            print('determinism %s: harness error in a case' % pid)
+            bad += 1
+        if a != b or c is None or a != c:
+            bad += 1
+            diff = [x[0] for x, y in zip(a, b) if x != y] + ([x[0] for x, y in zip(a, c) if x != y] if c else ['fresh interpreter failed: ' + r.stderr[-300:]])
+            print('NONDETERMINISM %s: cases %r' % (pid, diff[:6]))
+    print('determinism over campaigns: %d properties, %d cases x 3 runs (16 workers / 3 workers / fresh interpreter with PYTHONHASHSEED=12345), %d mismatching' % (len(props), total, bad))
+    return 0 if bad == 0 else 2
